@@ -579,9 +579,11 @@ func (w *tunnelWorld) run(c tunnelCase) (sig, msg string) {
 	}
 	if c.Closer == "upstream" {
 		// the upstream closed after echoing everything: end-of-stream, no more bytes
+		_ = conn.SetReadDeadline(time.Now().Add(15 * time.Second))
 		n, err := conn.Read(buf)
-		if n != 0 || err == nil {
-			return "close-not-propagated-to-client", fmt.Sprintf("%s: after the upstream closed the client read %d bytes, err %v", desc, n, err)
+		var ne net.Error
+		if n != 0 || err == nil || (errors.As(err, &ne) && ne.Timeout()) {
+			return "close-not-propagated-to-client", fmt.Sprintf("%s: 15s after the upstream closed the client still has not seen end-of-stream (read %d bytes, err %v)", desc, n, err)
 		}
 	} else {
 		conn.Close()
